@@ -51,3 +51,26 @@ claim('C09', 'other', 'contract-based deductive verification on an abstract host
       'add_sub2/3, add_sub_two_numbers, add_subtract_with_compare (widths <=3, both endiannesses), add_equal (n<=3, all constants incl. negative / too large), add_plus_one (outputs only when asked), add_if_then_else, pairwise xor / ite: '
       'value equations, freshness frame and WF proved for all operand values and hosts (width-bounded); div-mod, sqrt and larger widths bounded-only.',
       T_ASSUME + 'assumed contract for order_inputs/order_outputs (permutation); uuid4 draws pairwise distinct.', 'DESIGN.md §6 C07/C08/C09')
+
+for _k in ('C03', 'C06', 'C13', 'C18', 'C19'):
+    NA.pop(_k, None)
+claim('C03', 'other', 'contract-based deductive verification of the merge keys: MergeDuplicateGates._build_signature (nested function extracted from the AST) and the MergeUnaryOperators operand getter; bounded stand-in for whole passes',
+      'Proved for every gate type, arities <=3 and every aliasing of operands: equal signatures imply equal type and equal value of OP on the operand lists (what makes merging sound), different types never share a signature; '
+      'the unary operand getter reads exactly the operand OP depends on. Traversal-driven rebuilds, interface/argument preservation, pipelines and cleanup are bounded-only.',
+      T_ASSUME + 'axiom of sorted() on labels.', 'DESIGN.md §6 C03/C18')
+claim('C18', 'other', 'contract-based deductive verification of the duplicate-detection key (normal-form direction); bounded stand-in for normal forms and pipeline algebra',
+      'Proved: gates of equal type with equal operand lists, or equal up to order for symmetric types, get equal signatures (arities <=3, all aliasing), the local fact behind the MergeDuplicateGates normal form. '
+      'RRG reachability/idempotence, MEG/MUO normal forms and pipeline = sequencing are bounded-only.',
+      T_ASSUME + 'axiom of sorted() on labels.', 'DESIGN.md §6 C03/C18')
+claim('C06', 'other', 'contract-based deductive verification of clause families of the SAT encoding (real methods run on a CNF view, all valuations); bounded brute force for global soundness/completeness',
+      'Proved from the real source: _add_exactly_one_of is "exactly one" for 1..5 literals; fix_gate(gate_type=t) forces the table of OP(t) for every binary gate type; fix_gate with a single predecessor and forbid_wire exclude exactly the documented predecessor pairs. '
+      'The global theorem (model exists iff circuit exists, under constraints) is bounded: brute force over small shapes with the z3-backed solver shim.',
+      T_ASSUME + 'IDPool injective; SAT solver sound and complete.', 'DESIGN.md §6 C06')
+claim('C13', 'other', 'contract-based deductive verification of the comparison stage (add_pairwise_xor on an abstract host) and of the shape check of build_miter; bounded stand-in for composed miters',
+      'Proved: add_pairwise_xor adds fresh XOR gates computing the pointwise difference (n<=3, all aliasing, WF kept); build_miter raises MiterDifferentShapesError exactly for mismatched shapes before touching its operands. '
+      'The composition steps and the evaluated miter are bounded-only.',
+      T_ASSUME, 'DESIGN.md §6 C13')
+claim('C19', 'other', 'contract-based deductive verification on the abstract heap: remove_gate and replace_inputs; bounded stand-in for rename_gate / replace_subcircuit',
+      'Proved for an arbitrary well-formed circuit: remove_gate succeeds exactly for an existing unused gate, removes it from gates/users/inputs/outputs, drops blocks naming it and keeps WF; replace_inputs (<=2 labels per list) retypes exactly the listed inputs to the constants, '
+      'removes them from the input list, leaves every other gate, the users index, outputs and blocks untouched, keeps WF, with exact raise conditions. rename_gate, replace_subcircuit and the input order / cofactor statement are bounded-only.',
+      T_ASSUME + 'proof rule R2 for the cofactor claim.', 'DESIGN.md §6 C19')
